@@ -102,13 +102,13 @@ def float_ops(rng, fs, quick):
     for ty in ("f64", "f32"):
         cases = gens.float_bits_cases(rng, ty, 150 if quick else 3000, rich=True)
         if quick:
-            cases = rng.sample(cases[:-8], 260) + cases[-8:]
+            cases = rng.sample(cases[:-8], min(len(cases) - 8, 260)) + cases[-8:]
         for (r, b, er, fl) in fmts:
             f = gens.fmt_hex(gens.pack(r, b, er, flags=fl))
             combo = r == 10 and (fl in FLOAT_FLAG_COMBOS or er != 10)
             echar = 94 if (r > 25 or er > 10) else (112 if r >= 15 else 101)
             nper = (60 if combo else 120) if quick else len(cases)
-            for bits in (cases if not quick else rng.sample(cases, nper) + cases[-8:]):
+            for bits in (cases if not quick else rng.sample(cases, min(len(cases), nper)) + cases[-8:]):
                 k = rng.random()
                 dp, e = 46, echar
                 if k < 0.2 and r == 10 and er == 10:
